@@ -69,6 +69,9 @@ def document(openapi="3.0.3"):
                        "additionalProperties": {"type": "string", "format": "date"}},
         "ModelExtra": {"type": "object", "additionalProperties": {"$ref": "#/components/schemas/Leaf"}},
         "NoExtra": {"type": "object", "properties": {"k": {"type": "string"}}, "additionalProperties": False},
+        "Format": {"type": "string", "enum": ["csv", "json"]},          # class name whose snake case is a reserved word
+        "UsesFormat": {"type": "object", "properties": {"f": {"$ref": "#/components/schemas/Format"},
+                                                        "t": {"type": "string", "enum": ["x", "y"], "title": "Type"}}},
         "Layout": {"type": "object", "required": ["a-dflt", "b-plain"], "properties": {
             "a-dflt": {"type": "string", "default": "x"}, "b-plain": {"type": "integer"},
             "c-opt-dflt": {"type": "integer", "default": 3}, "d-opt": {"type": "string", "format": "date"}}},
@@ -96,7 +99,7 @@ def document(openapi="3.0.3"):
         for c in comps.values():
             _downgrade(c)
     doc = {"openapi": openapi, "info": {"title": "frag", "version": "1"}, "paths": {}, "components": {"schemas": comps}}
-    extra = ["Leaf", "Leaf2", "Composed", "TypedExtra", "ModelExtra", "NoExtra", "Two", "Layout"]
+    extra = ["Leaf", "Leaf2", "Composed", "TypedExtra", "ModelExtra", "NoExtra", "Two", "Layout", "UsesFormat"]
     return doc, cases, extra
 
 
